@@ -15,7 +15,7 @@ LEVEL_NOTE = ('Trusted: front-end, interpreter, real algebra (no rounding). The 
               '(non-zero F_lmp(0) only for m = l-2p). Numerical values of heating themselves come from C10/C12 clauses.')
 EXPLANATION = ('R11.1 energy: d/dt(-G m1 m2/2a) + sum C spin dspin/dt + sum host*(n dUdM - spin dUdO) == 0 with n^2 a^3 = G(m1+m2); angular momentum at zero obliquity. '
                'R11.2 sibling agreement (combined vs separate functions; dual with body 2 off == single). R11.3 call-site binding. R11.4 masked division (e=0 gives 0, not NaN). '
-               'R11.6 pointwise kernels. R11.7 closed loop: with the potential derivatives and heating produced by the real mode summation, dE_orb/dt + sum C spin dspin/dt + heating == 0 and (obliquity off) dL_orb/dt + sum C dspin/dt == 0, single and dual dissipation. R11.8 no in-place update of arguments.')
+               'R11.6 pointwise kernels. R11.7 closed loop: with the potential derivatives and heating produced by the real mode summation, dE_orb/dt + sum C spin dspin/dt + heating == 0 and (obliquity off) dL_orb/dt + sum C dspin/dt == 0, single and dual dissipation. R11.8 no in-place update of arguments. R11.9 the public entry points end to end: the returned heating(s), da/dt, de/dt and spin-rate derivative(s) balance energy (and angular momentum with obliquity tides off), scalar and array inputs.')
 
 
 def eps_mask(node, pt=None):
@@ -159,6 +159,7 @@ def run(chk):
     oop_callsites(chk, repo, ms, md, S, D)
     # ---- R11.7 the loop closed through the real mode summation
     closed_loop(chk, repo, ms, md, S, D)
+    entry_points(chk, repo)
     from .common import inplace_lint
     inplace_lint(chk, repo, 'R11.8', ['TidalPy/dynamics/single_dissipation.py', 'TidalPy/dynamics/dual_dissipation.py', 'TidalPy/toolbox/quick_tides.py', 'TidalPy/tides/modes/mode_manipulation.py', 'TidalPy/utilities/conversions/conversions.py'])
     chk.floor('R11.8', 5)
@@ -465,3 +466,102 @@ def oop_callsites(chk, repo, ms, md, S, D):
     ok = isinstance(r, X.Node) and d.equal(r, ref) and d.equal(s.world.attrs['_tidal_polar_torque'], st['M_host'] * dO)
     chk.ob('R11.3', 'TidalWorld.calc_spin_derivative == spin_rate_derivative(dUdO, C, host mass); polar torque == host mass * dUdO', ok, 'differs', mw.rel(), key='R11.3|calc_spin_derivative',
            method='abstract object graph + GF(p^2) PIT')
+
+
+# ---------------------------------------------------------------------------------------------- R11.9 the entry points end to end
+def entry_points(chk, repo):
+    """quick_tidal_dissipation(..., calculate_orbit_spin_derivatives=True) and quick_dual_body_tidal_dissipation(...) interpreted as a whole (only the rheology's compliance
+    evaluation is a stub: one free complex compliance per unique frequency and body): what the caller gets back -- the heating(s), da/dt, de/dt and the spin-rate derivative(s) of
+    the returned dictionaries -- must satisfy the energy balance, and the angular-momentum balance when obliquity tides are off, with a from Kepler's third law."""
+    from ..core.interp import Opaque, PathExplorer
+    mq = repo.by_path('TidalPy/toolbox/quick_tides.py')
+    fs = mq.defs.get('quick_tidal_dissipation'); fdu = mq.defs.get('quick_dual_body_tidal_dissipation')
+    if not (isinstance(fs, ast.FunctionDef) and isinstance(fdu, ast.FunctionDef)):
+        raise AnalysisError('quick_tidal_dissipation / quick_dual_body_tidal_dissipation vanished')
+    body = {'i': 0}
+
+    def call_hook(itp, fn_, args, kwargs, e, fr):
+        if isinstance(fn_, FuncRef) and fn_.node.name == 'compliance_dict_helper':
+            freqs = args[0] if args else kwargs.get('tidal_frequencies')
+            visc = args[2][0] if len(args) > 2 and isinstance(args[2], tuple) and args[2] else None
+            who = X.show(X.lift(visc))[:12] if visc is not None else 'x'
+            return {sig: X.atom(f'J[{who}]{sig[0]}_{sig[1]}'.replace('-', 'm'), 'complex') for sig in freqs}
+        return NotImplemented
+
+    def branch_hook(itp, st, v, fr):
+        if isinstance(v, Opaque) and v.name.startswith('tolerance test'):
+            return None
+        return False
+    Gc = X.atom('const_G', 'pos')
+    e = X.atom('e', 'pos'); n = X.atom('n', 'pos')
+    d = X.Decider(seed=chk.seed + 91, k=2, positive=[X.atom('M0', 'pos') + X.atom('M1', 'pos'), 1 - e * e], mask_hook=eps_mask)
+
+    def balances(out_single, masses, mois, spins, heats, dspins, da, de, obliq_off):
+        M0, M1 = masses
+        a = X.fn('cbrt', Gc * (M0 + M1) / (n * n))
+        dE_orb = Gc * M0 * M1 / (2 * a * a) * da
+        dE_rot = sum((C_ * s_ * ds_ for C_, s_, ds_ in zip(mois, spins, dspins)), X.ZERO)
+        heat = sum(heats, X.ZERO)
+        bad = []
+        if not d.is_zero(dE_orb + dE_rot + heat):
+            bad.append('energy: d/dt(-G m1 m2 / 2a) + sum C spin dspin/dt + (returned heating) != 0')
+        if obliq_off:
+            mu_ = M0 * M1 / (M0 + M1)
+            L = mu_ * X.sqrt(Gc * (M0 + M1) * a * (1 - e * e))
+            dL = X.diff(L, 'a_sym') if False else mu_ * X.sqrt(Gc * (M0 + M1)) * (X.sqrt(1 - e * e) / (2 * X.sqrt(a)) * da - X.sqrt(a) * e / X.sqrt(1 - e * e) * de)
+            if not d.is_zero(dL + sum((C_ * ds_ for C_, ds_ in zip(mois, dspins)), X.ZERO)):
+                bad.append('angular momentum: d/dt(mu sqrt(G M a (1 - e^2))) + sum C dspin/dt != 0')
+        return bad
+    for arrays in (False, True):
+        it = Interp(repo, hooks={'call': call_hook, 'branch': branch_hook}, max_depth=12)
+        it.array_mode = arrays
+        mode = ', array inputs' if arrays else ''
+        # single body
+        M = X.atom('M0', 'pos'); m = X.atom('M1', 'pos'); C = X.atom('C1', 'pos'); spin = X.atom('spin1')
+        for obl_on in (False, True):
+            kw = dict(host_mass=M, target_radius=X.atom('R1', 'pos'), target_mass=m, target_gravity=X.atom('g1', 'pos'), target_density=X.atom('rho1', 'pos'), target_moi=C,
+                      viscosity=X.atom('eta1', 'pos'), shear_modulus=X.atom('mu1', 'pos'), rheology='Maxwell', eccentricity=e, orbital_frequency=n, spin_frequency=spin,
+                      calculate_orbit_spin_derivatives=True, eccentricity_truncation_lvl=4)
+            if obl_on: kw.update(obliquity=X.atom('I1'), use_obliquity=True)
+
+            def one(fork, kw=kw):
+                it.hooks['fork'] = fork
+                try: return it.call(mq, fs, [], dict(kw))
+                finally: it.hooks.pop('fork', None)
+            bad = []
+            for tr_, out in PathExplorer(max_paths=16).run(one):
+                need = ('tidal_heating', 'semi_major_axis_derivative', 'eccentricity_derivative', 'spin_rate_derivative')
+                if not isinstance(out, dict) or any(k_ not in out for k_ in need):
+                    bad.append('the result dictionary lacks ' + str([k_ for k_ in need if not isinstance(out, dict) or k_ not in out])); continue
+                b_ = balances(out, (M, m), [C], [spin], [out['tidal_heating']], [out['spin_rate_derivative']], out['semi_major_axis_derivative'], out['eccentricity_derivative'], not obl_on)
+                bad += [x_ + PathExplorer.label(tr_) for x_ in b_]
+            lab = f'quick_tidal_dissipation (derivatives requested, obliquity tides {"on" if obl_on else "off"}{mode})'
+            chk.ob('R11.9', f'{lab}: the returned heating, da/dt, de/dt and spin-rate derivative balance energy' + ('' if obl_on else ' and angular momentum'), not bad, '; '.join(bad[:2]), mq.where(fs),
+                   key=f'R11.9|{lab}', method='whole-function interpretation (real mode summation, compliance stubbed) + GF(p^2) PIT')
+        # dual body
+        Ms = (X.atom('M0', 'pos'), X.atom('M1', 'pos')); Cs = (X.atom('C0', 'pos'), X.atom('C1', 'pos')); sps = (X.atom('spin0'), X.atom('spin1'))
+        for obl_on in (False, True):
+            kw = dict(radii=(X.atom('R0', 'pos'), X.atom('R1', 'pos')), masses=Ms, gravities=(X.atom('g0', 'pos'), X.atom('g1', 'pos')), densities=(X.atom('rho0', 'pos'), X.atom('rho1', 'pos')),
+                      mois=Cs, viscosities=(X.atom('eta0', 'pos'), X.atom('eta1', 'pos')), shear_moduli=(X.atom('mu0', 'pos'), X.atom('mu1', 'pos')), rheologies=('Maxwell', 'Maxwell'),
+                      eccentricity=e, orbital_frequency=n, spin_frequencies=sps, eccentricity_truncation_lvl=4)
+            if obl_on: kw.update(obliquities=(X.atom('I0'), X.atom('I1')), use_obliquity=True)
+
+            def one2(fork, kw=kw):
+                it.hooks['fork'] = fork
+                try: return it.call(mq, fdu, [], dict(kw))
+                finally: it.hooks.pop('fork', None)
+            bad = []
+            for tr_, out in PathExplorer(max_paths=16).run(one2):
+                worlds = [k_ for k_ in ('host', 'secondary') if isinstance(out, dict) and isinstance(out.get(k_), dict)]
+                if len(worlds) != 2 or 'semi_major_axis_derivative' not in out:
+                    bad.append('the result dictionary lacks the per-world results or the orbital derivatives'); continue
+                heats = [out[w_]['tidal_heating'] for w_ in worlds]; dsp = [out[w_]['spin_rate_derivative'] for w_ in worlds]
+                b_ = balances(out, Ms, list(Cs), list(sps), heats, dsp, out['semi_major_axis_derivative'], out['eccentricity_derivative'], not obl_on)
+                bad += [x_ + PathExplorer.label(tr_) for x_ in b_]
+                # a system total, where reported, is the sum of the two worlds' heating as reported for them
+                if 'tidal_heating' in out and not d.equal(X.lift(out['tidal_heating']), heats[0] + heats[1]):
+                    bad.append('the system total of the heating is not the sum of the two worlds\' reported heating')
+            lab = f'quick_dual_body_tidal_dissipation (obliquity tides {"on" if obl_on else "off"}{mode})'
+            chk.ob('R11.9', f'{lab}: the two worlds\' returned heating and spin-rate derivatives and the returned da/dt, de/dt balance energy' + ('' if obl_on else ' and angular momentum'), not bad,
+                   '; '.join(bad[:2]), mq.where(fdu), key=f'R11.9|{lab}', method='whole-function interpretation (real mode summation, compliance stubbed) + GF(p^2) PIT')
+    chk.floor('R11.9', 8)
